@@ -192,7 +192,8 @@ class H09(_Harness):
         opts = sel_options(rng)
         res = []
         plid = "%08X" % int.from_bytes(list(files.values())[0][40:44], 'big') if files else "50000001"
-        for mode in (['-l'], ['-a'], ['-n'], ['--plid', plid], ['--src', 'BD'], ['-a', '-x'], ['-l', '-r']):
+        for mode in (['-l'], ['-a'], ['-n'], ['--plid', plid], ['--src', 'BD'], ['-a', '-x'], ['-l', '-r'], ['--plid', plid, '-x'],
+                     ['-a', '-x', '-r']):
             c = run_cli(['-p', clean] + mode + opts)
             x = run_cli(['-p', dirty] + mode + opts)
             res.append(("%s: same stdout with and without junk files / sub-directories" % ' '.join(mode), c['stdout'] == x['stdout'],
@@ -213,6 +214,9 @@ class H10(_Harness):
         names = sorted(files)
         small = gen_pel(rng, max_sections=1, eid=0x50000F00, plid=rng.choice([0x1234, 0x00000001, 0x0ABCDEF0]), sev=0x00, flags=0x4000)[0]
         files["small_50000F00"] = small
+        # a hidden, informational PEL whose BMC event log id is a boundary value (0 / 1 / 0xFFFFFFFF)
+        edge_bmc = rng.choice([0, 0, 1, 0xFFFFFFFF])
+        files["edge_50000F01"] = gen_pel(rng, max_sections=1, eid=0x50000F01, obmc=edge_bmc, sev=0x00, flags=0x4000)[0]
         write_tree(d, files, sub)
         res = []
         full = {f: jloads(run_cli(['-f', os.path.join(d, f), '-E'])['stdout']) for f in files}
@@ -232,6 +236,10 @@ class H10(_Harness):
         r = run_cli(['-p', d, '--bmc-id', bmc])
         j = jloads(r['stdout'])
         res.append(("--bmc-id N displays a PEL whose BMC event log id is N", j is not None and j["Private Header"]["BMC Event Log Id"] == bmc, dict(out=r['stdout'][:200])))
+        r = run_cli(['-p', d, '--bmc-id', str(edge_bmc)])
+        j = jloads(r['stdout'])
+        res.append(("--bmc-id N finds a hidden, informational PEL (boundary values of N included)",
+                    j is not None and int(j["Private Header"]["BMC Event Log Id"], 0) == edge_bmc, dict(n=edge_bmc, out=r['stdout'][:200])))
         r = run_cli(['-p', d, '--bmc-id', '99999999'])
         res.append(("--bmc-id of no PEL: PEL not found", r['stdout'].strip() == "PEL not found", dict(out=r['stdout'][:100])))
         eid = full[target]["Private Header"]["Entry Id"]
@@ -292,6 +300,10 @@ class H11(_Harness):
                     len(gone) <= 1 and all(eid in g and '/' not in g for g in gone) and all(after[k] == before[k] for k in after), dict(gone=gone)))
         r = run_cli(['-p', root, '-d', '5FFFFFFF'])
         res.append(("--delete of an unknown id: nothing removed, 'PEL not found'", snapshot(root) == after and 'PEL not found' in r['stdout'], dict()))
+        aeid = list(sub)[0][-8:]
+        r = run_cli(['-p', root, '-d', aeid])
+        res.append(("--delete of an id that exists only in a sub-directory: nothing removed, 'PEL not found'",
+                    snapshot(root) == after and 'PEL not found' in r['stdout'], dict(id=aeid, out=r['stdout'][:100])))
         r = run_cli(['-p', root, '-D'])
         r = run_cli(['-p', root, '-D'])          # a second time, on the now empty top level
         final = snapshot(root)
